@@ -2497,6 +2497,10 @@ impl<'ctxt, R: ImportResolver, C: Cache> VirtualMachine<'ctxt, R, C> {
                 // Still, we can handle the following case: if the pending contracts are the same
                 // size and are equal pairwise, we can keep them lazy. The typical case is when
                 // there's only one contract, but it's doesn't cost much to try them all.
+                //
+                // The labels must have the same polarity as well: the pending contracts of the
+                // left operand are kept for all the elements of the result, so a violation by an
+                // element of the right operand would otherwise be blamed on the wrong party.
 
                 if array_data1.pending_contracts.len() == array_data2.pending_contracts.len()
                     && array_data1
@@ -2505,6 +2509,7 @@ impl<'ctxt, R: ImportResolver, C: Cache> VirtualMachine<'ctxt, R, C> {
                         .zip(array_data2.pending_contracts.iter())
                         .all(|(ctr1, ctr2)| {
                             !ctr1.can_have_poly_ctrs()
+                                && ctr1.label.polarity == ctr2.label.polarity
                                 && contract_eq(&ctr1.contract, &env1, &ctr2.contract, &env2)
                         })
                 {
